@@ -963,29 +963,18 @@ async fn async_guard(rt: &Rt, inv: u32, en: bool, exit: Exit) -> u32 {
 
 #[cfg(miri)]
 fn sync_block(rt: &Rt, inv: u32, en: bool, exit: Exit) -> u32 {
-    let mut out = 0;
     #[emit::span(rt: *rt, "sync_block {inv}", inv, en)]
     {
         if exit == Exit::Panic {
             panic!("boom");
         }
-        out += 1;
     }
-    out
+    1
 }
 
-#[cfg(miri)]
-async fn async_block(rt: &Rt, inv: u32, en: bool, exit: Exit) -> u32 {
-    #[emit::info_span(rt: *rt, "async_block {inv}", inv, en)]
-    async {
-        YieldNow(false).await;
-        if exit == Exit::Panic {
-            panic!("boom");
-        }
-        3
-    }
-    .await
-}
+// NOTE: the async *block* form (`#[emit::span(..)] async { .. }.await`) cannot be written at all: the
+// attribute receives just `async { .. }`, which the macro parses as a `syn::Stmt`, and syn demands a
+// terminating `;` for it ("unexpected end of input, expected semicolon"). Nothing to monitor there.
 
 fn manual_new_span(rt: &Rt, inv: u32, en: bool, exit: Exit) -> u32 {
     let (mut guard, frame) = emit::new_span!(rt: *rt, "manual_new_span {inv}", inv, en);
@@ -1097,8 +1086,6 @@ fn forms() -> Vec<Form> {
         // attributes on block expressions need nightly features: only built under Miri (always nightly)
         #[cfg(miri)]
         form("sync_block", sync_form!(sync_block), BLOCK_EXITS),
-        #[cfg(miri)]
-        Form { default_lvl: Some("info"), ..form("async_block", async_form!(async_block), BLOCK_EXITS) },
         form("manual_new_span", sync_form!(manual_new_span), MANUAL_EXITS),
         Form { default_lvl: Some("info"), never_started: true, ..form("manual_new_info_span_never_started", sync_form!(manual_new_info_span_never_started), &[Exit::Normal]) },
     ]
@@ -1276,7 +1263,7 @@ fn main() {
 
     // (a) guard programs
     // Miri interprets ~1000x slower: a fixed small number there, whatever the scale
-    let n = if cfg!(miri) { args.get_u64("programs", 250) } else { args.n(1_000_000, 10_000_000) };
+    let n = if cfg!(miri) { args.get_u64("programs", 60) } else { args.n(1_000_000, 10_000_000) };
     par_cases(&mut r, &args, n, |i, r| {
         let mut g = Rng::stream(seed, &[5, 1, i]);
         let p = gen_program(&mut g);
@@ -1295,6 +1282,11 @@ fn main() {
     let rounds = if cfg!(miri) { 1 } else { args.n(10, 100) };
     let total = jobs.len() as u64 * rounds;
     par_cases(&mut r, &args, total, |i, r| {
+        // under Miri (a third of a second per invocation) every run takes a third of the sites,
+        // rotating with the seed, so a few Miri seeds cover all of them
+        if cfg!(miri) && (i + seed) % 3 != 0 {
+            return;
+        }
         let (fi, exit, en) = jobs[(i % jobs.len() as u64) as usize];
         check_invocation(r, &all[fi], exit, en, i as u32 + 1);
     });
